@@ -5,6 +5,7 @@
    Connection.Close that was processed the thread is in ServerClosing until it ends -
    Connection::close reports the server's close. *)
 From Amq Require Export Check.CoreOracles.
+From Amq Require Check.C08.
 
 Definition is_close (f : frame) : bool := match f with FMethod 0 (MConnClose _ _) => true | _ => false end.
 
@@ -56,5 +57,8 @@ Fixpoint after_close (seen : bool) (l : list (cop * cobs * digest)) : bool :=
 Definition oracle_ok (c : case) : bool :=
   let '(_, _, ops, obs, aux) := c in
   oracle_no_panic obs && oracle_consumers ops obs && after_close false (zip3 ops obs) &&
-  late_close_ok_fine 0 (zip3 ops obs).
+  late_close_ok_fine 0 (zip3 ops obs) &&
+  (* a request handled after the close point (the buffer is sealed) fails or is dropped: it is
+     never written behind the closing frame *)
+  C08.frozen_after_seal obs.
 Definition bad_oracle (cs : list case) : list N := bad_idx oracle_ok 0 cs.
